@@ -5,7 +5,7 @@ ENGINES = [
      "kind_free_text": "clang -O1 -emit-llvm of the real lib-rt sources, parsed and translated path by path to SMT (bit-vector or integer encoding) with UB obligations"},
     {"name": "frames", "path": "frames/", "serves_properties": ["C08", "C09", "C10"],
      "kind_free_text": "reads / effects frame conditions decided by a syntactic scan of the real ASTs (over-approximation of reads)"},
-    {"name": "pyvc", "path": "pyvc/", "serves_properties": ["C12", "C13", "C14", "C16", "C20"],
+    {"name": "pyvc", "path": "pyvc/", "serves_properties": ["C02", "C03", "C04", "C12", "C13", "C14", "C16", "C18", "C20"],
      "kind_free_text": "verification-condition generator: symbolic execution of the real function ASTs (re-read from /repo each run) against sidecar contracts; obligations discharged by z3 (cvc5 for z3's unknowns)"},
 ]
 
@@ -54,6 +54,12 @@ CLAIMED["C15"] = dict(
     level_note="What is verified is clang 14's -O1 LLVM IR of the real sources (recompiled on every run), not the C text and not the gcc -O3 binary mypyc ships. Trusted: clang front end / -O1 mid-end, z3, slow paths (CPyTagged_*_ and CPython PyLong). mul/sdiv/srem functions use an integer encoding with explicit wrap-around and truncated-division axioms. Not decided: IR that mypyc generates for ints (lower/int_ops.py, ll_builder fixed_width_int_op, coerce range checks), floats (float_ops.c, libm), u8 wrap-around in generated C, CPyTagged_From*/As* conversions with loops.",
     technique="contract-based deductive verification of C: VC generation from clang's LLVM IR of the real sources, SMT discharge (z3 bit-vectors / integers)")
 
+CLAIMED["C20"] = dict(
+    engine="pyvc", category="proof", design_ref="DESIGN.md section 5 C20",
+    text="Exceptional postcondition `raises = ()` (no exception escapes, for any input) proved for input-reachable kernels: constant folding in mypy and mypyc (incl. the size bounds that stand for 'no hang'), the reachability / version / platform evaluators, Errors.report / report_simple_error / note_for_info / is_ignored_error / is_error_code_enabled, fastparse.parse_type_string (against the exception contract of the Python parser) and config_parser.split_directive (index safety of both scanning loops).",
+    level_note="'For every text file' over the whole pipeline is not decidable with function contracts: only the listed kernels are covered; the checker, semantic analyzer, daemon update path and termination of deferral loops are NOT decided. AssertionError is allowed for Errors.report (caller obligations on parent_error). Resource exhaustion is modelled as an exit when a folded result would exceed 10**7 bits/elements. Trusted: z3/cvc5, engine encoding of Python, the exception contract of ast.parse.",
+    technique="contract-based deductive verification: exceptional postconditions generated from the real AST, SMT discharge (z3, cvc5)")
+
 NOT_APPLICABLE = {
     "C01": "soundness of the whole checker against CPython's dynamic semantics: no per-function contract expresses it (DESIGN.md 5 C01)",
     "C05": "compiler correctness of mypyc end to end: a simulation proof, not a function contract (DESIGN.md 5 C05); the numeric leaf is C15",
@@ -67,5 +73,4 @@ NOT_APPLICABLE = {
     "C10": "not yet built in this round",
     "C11": "not yet built in this round",
     "C18": "not yet built in this round",
-    "C20": "not yet built in this round",
 }
